@@ -259,7 +259,7 @@ import xarray as xr         # noqa: E402
 NAN = float('nan')
 BUILTIN = ['mean', 'max', 'min', 'range', 'std', 'var', 'sum']
 USER = ['u_range', 'u_count', 'u_nnan', 'u_first', 'u_idxsum']
-ODD_SHAPES = [(r, c) for r in (1, 3, 5) for c in (1, 3, 5, 7)]
+ODD_SHAPES = [(r, c) for r in (1, 3, 5, 7) for c in (1, 3, 5, 7)]
 THRESHOLDS_TEXT = [('2.58', 99), ('1.96', 95), ('1.65', 90)]      # from the property text
 
 _cache = {}
@@ -504,13 +504,19 @@ def hot_class(z2sign, az2):
     return z2sign * conf
 
 
-def oracle_hotspots(data, kernel):
-    """returns grid of (value, near) — near=True when |z| is within 2e-4 (relative) of a threshold, where the
-    float32 z-score of the implementation may legitimately fall on the other side"""
+def oracle_hotspots(data, kernel, slack=1.0):
+    """returns grid of (value, near) — near=True when the exact |z| is closer to a threshold than the forward error
+    bound B of the implementation's float32 evaluation, where its z-score may legitimately fall on the other side:
+      B = 2*slack * ( 22 u M / std  +  |z| ((22 u M / std)^2 + 30 u) )  +  2e-4 |z|,   u = 2^-24, M = max |cell|
+    (float32 rounding of the neighbourhood mean: u M; pairwise float32 global mean of <= 128 cells: <= 20 u M; a common
+    shift e of all deviations changes the variance by e^2; 30 u covers the roundings of the squares, their sum, the
+    division and the square root).  For |mean|/std ~ 1e6 the bound exceeds the thresholds and only |z| >> 2.58 is checked."""
     vals = [v for row in data for v in row if v is not None]
     n = len(vals)
     gm = sum(vals) / n
     var = sum((v - gm) ** 2 for v in vals) / n
+    u = 2.0 ** -24
+    e_rel = 22 * u * float(max(abs(v) for v in vals)) / math.sqrt(float(var))
     ks = sum(k for row in kernel for k in row)
     nk = [[Fraction(k) / ks for k in row] for row in kernel]
     m = oracle_conv(data, nk)
@@ -524,7 +530,9 @@ def oracle_hotspots(data, kernel):
             d = v - gm
             z2 = d * d / var
             sg = (d > 0) - (d < 0)
-            near = any(abs(z2 - Fraction(t) ** 2) <= Fraction(t) ** 2 * Fraction(4, 10000) for t, _ in THRESHOLDS_TEXT)
+            az = math.sqrt(float(z2))
+            bound = 2 * slack * (e_rel + az * (e_rel ** 2 + 30 * u)) + 2e-4 * az
+            near = any(abs(az - float(t)) <= bound for t, _ in THRESHOLDS_TEXT)
             o.append((hot_class(sg, z2), near))
         out.append(o)
     return out
@@ -533,6 +541,14 @@ def oracle_hotspots(data, kernel):
 # ---------------------------------------------------------------------------------------------
 # generators
 # ---------------------------------------------------------------------------------------------
+INT_DTYPES = ['int8', 'int16', 'int32', 'int64', 'uint8', 'uint16', 'uint32', 'uint64']
+RARE_DTYPES = ['int8', 'int16', 'uint8', 'uint16', 'uint32', 'uint64']          # each costs one JIT specialisation per kernel
+
+
+def is_int_dtype(dtype):
+    return dtype.startswith('int') or dtype.startswith('uint')
+
+
 def gen_raster(rng, rows=None, cols=None, kind=None, nanp=None, dtype=None):
     rows = rows or rng.choice([1, 2, 3, 4, 5, 6, 7, 8])
     cols = cols or rng.choice([1, 2, 3, 4, 5, 6, 7, 8])
@@ -540,7 +556,7 @@ def gen_raster(rng, rows=None, cols=None, kind=None, nanp=None, dtype=None):
     dtype = dtype or rng.choice(['float64', 'float64', 'float32', 'int32', 'int64'])
     if nanp is None:
         nanp = rng.choice([0.0, 0.1, 0.3, 0.6])
-    if dtype.startswith('int'):
+    if is_int_dtype(dtype):
         nanp = 0.0
         if kind == 'quarter':
             kind = 'int'
@@ -553,11 +569,46 @@ def gen_raster(rng, rows=None, cols=None, kind=None, nanp=None, dtype=None):
         vals = [float(v) for v in rng.sample(range(-60, 200), n)]
     vals = [NAN if rng.random() < nanp else v for v in vals]
     a = np.array(vals, dtype='float64').reshape(rows, cols)
-    if dtype.startswith('int'):
-        a = a.astype(dtype)
-    else:
-        a = a.astype(dtype)
+    if dtype.startswith('uint'):
+        a = np.abs(a)
+    if dtype in ('int8', 'uint8'):
+        a = np.clip(a, -100, 120) if dtype == 'int8' else a
+    a = a.astype(dtype)
     return a, dtype
+
+
+def gen_chunks(rng, rows, cols, layout):
+    """Dask chunk layouts: single chunk; one block tall x several wide; several tall x one wide; 1-cell chunks; uneven"""
+    if layout == 'single':
+        return (rows, cols)
+    if layout == '1xwide':
+        return (rows, rng.choice([1, 2, 3]))
+    if layout == 'tallx1':
+        return (rng.choice([1, 2, 3]), cols)
+    if layout == 'cells':
+        return (1, 1)
+    if layout == 'uneven':
+        def split(n):
+            parts = []
+            while n > 0:
+                p = rng.randint(1, max(1, min(4, n)))
+                parts.append(p)
+                n -= p
+            rng.shuffle(parts)
+            return tuple(parts)
+        return (split(rows), split(cols))
+    return (rng.choice([2, 3, 4]), rng.choice([2, 3, 4]))
+
+
+LAYOUTS = ['single', '1xwide', 'tallx1', 'cells', 'uneven', 'blocks']
+
+
+def chunks_json(chunks):
+    return [list(c) if isinstance(c, tuple) else c for c in chunks]
+
+
+def chunks_from_json(chunks):
+    return None if chunks is None else tuple(tuple(c) if isinstance(c, list) else c for c in chunks)
 
 
 def gen_kernel01(rng, shape=None, style=None):
@@ -627,14 +678,26 @@ def run_apply(ctx, pend, a, dtype, karr, fname, chunks=None):
     rows = to_rows(a)
     case = dict(fn='apply', func=fname, data=rows, dtype=dtype, kernel=np.asarray(karr).tolist(), kdtype=str(karr.dtype))
     if chunks is not None:
-        case['dask_chunks'] = list(chunks)
+        case['dask_chunks'] = chunks_json(chunks)
         ctx.count('apply/dask')
     ctx.case(case, nontrivial=any(not isnan(v) for r in rows for v in r))
     ctx.count('apply/%s/kernel=%dx%d' % (fname, karr.shape[0], karr.shape[1]))
     ctx.count('dtype/' + dtype)
     what = 'focal.apply(func=%s, kernel %dx%d)' % (fname, karr.shape[0], karr.shape[1])
     try:
-        out = to_rows(_np(focal.apply(xr.DataArray(_backed(a, chunks), dims=['y', 'x']), karr, funcs[fname]).data))
+        nm = [None, 'my_layer'][len(rows) % 2]
+        agg = xr.DataArray(_backed(a, chunks), dims=['y', 'x'])
+        if fname == 'default':
+            res = focal.apply(agg, karr)
+            fname = 'mean'
+        elif nm is None:
+            res = focal.apply(agg, karr, funcs[fname])
+        else:
+            res = focal.apply(agg, karr, funcs[fname], name=nm)
+        if res.name != (nm if nm is not None and case['func'] != 'default' else 'focal_apply'):
+            ctx.violation('oracle', '%s: result is named %r' % (what, res.name), case)
+            return
+        out = to_rows(_np(res.data))
     except Exception as e:
         ctx.violation('oracle', '%s raised %s: %s' % (what, type(e).__name__, str(e)[:200]), case)
         return
@@ -648,7 +711,7 @@ def run_stats(ctx, pend, a, dtype, karr, names, chunks=None):
     rows = to_rows(a)
     case = dict(fn='focal_stats', stats=names, data=rows, dtype=dtype, kernel=np.asarray(karr).tolist(), kdtype=str(karr.dtype))
     if chunks is not None:
-        case['dask_chunks'] = list(chunks)
+        case['dask_chunks'] = chunks_json(chunks)
         ctx.count('focal_stats/dask')
     ctx.case(case)
     ctx.count('focal_stats/n=%d/kernel=%dx%d' % (len(names or BUILTIN), karr.shape[0], karr.shape[1]))
@@ -676,15 +739,25 @@ def run_stats(ctx, pend, a, dtype, karr, names, chunks=None):
     pend.append(('stats %d %s %s %s' % (len(want), ' '.join(want), grid_line(D), grid_line(K)), layers, case, what))
 
 
-def run_mean(ctx, pend, a, dtype, passes, excludes):
+def run_mean(ctx, pend, a, dtype, passes, excludes, chunks=None):
     focal, conv, funcs = _impl()
     rows = to_rows(a)
     case = dict(fn='mean', passes=passes, excludes=list(excludes), data=rows, dtype=dtype)
+    if chunks is not None:
+        case['dask_chunks'] = chunks_json(chunks)
+        ctx.count('mean/dask')
     ctx.case(case)
     ctx.count('mean/passes=%d/excludes=%s' % (passes, 'nan' if any(isnan(e) for e in excludes) else 'no-nan'))
     what = 'focal.mean(passes=%d, excludes=%r)' % (passes, excludes)
     try:
-        out = to_rows(focal.mean(xr.DataArray(a, dims=['y', 'x']), passes=passes, excludes=list(excludes)).data)
+        nm = [None, 'smoothed'][(len(rows) + passes) % 2]
+        agg = xr.DataArray(_backed(a, chunks), dims=['y', 'x'])
+        res = focal.mean(agg, passes=passes, excludes=list(excludes)) if nm is None else \
+            focal.mean(agg, passes=passes, excludes=list(excludes), name=nm)
+        if res.name != (nm or 'mean'):
+            ctx.violation('oracle', '%s: result is named %r' % (what, res.name), case)
+            return
+        out = to_rows(_np(res.data))
     except Exception as e:
         ctx.violation('oracle', '%s raised %s: %s' % (what, type(e).__name__, str(e)[:200]), case)
         return
@@ -695,15 +768,25 @@ def run_mean(ctx, pend, a, dtype, passes, excludes):
     pend.append(('mean %d %d %s %s' % (passes, len(E), ' '.join(tok(e) for e in E), grid_line(D)), [(out, mode)], case, what))
 
 
-def run_conv(ctx, pend, a, dtype, karr):
+def run_conv(ctx, pend, a, dtype, karr, chunks=None):
     focal, conv, funcs = _impl()
     rows = to_rows(a)
     case = dict(fn='convolution_2d', data=rows, dtype=dtype, kernel=np.asarray(karr).tolist(), kdtype=str(karr.dtype))
+    if chunks is not None:
+        case['dask_chunks'] = chunks_json(chunks)
+        ctx.count('convolution_2d/dask')
+    ctx.count('dtype/' + dtype)
     ctx.case(case)
     ctx.count('convolution_2d/kernel=%dx%d' % karr.shape)
     what = 'convolution_2d(kernel %dx%d)' % karr.shape
     try:
-        out = to_rows(conv.convolution_2d(xr.DataArray(a, dims=['y', 'x']), karr).data)
+        nm = [None, 'smooth'][len(rows) % 2]
+        agg = xr.DataArray(_backed(a, chunks), dims=['y', 'x'])
+        res = conv.convolution_2d(agg, karr) if nm is None else conv.convolution_2d(agg, karr, name=nm)
+        if res.name != (nm or 'convolution_2d'):
+            ctx.violation('oracle', '%s: result is named %r' % (what, res.name), case)
+            return
+        out = to_rows(_np(res.data))
     except Exception as e:
         ctx.violation('oracle', '%s raised %s: %s' % (what, type(e).__name__, str(e)[:200]), case)
         return
@@ -752,20 +835,37 @@ def run_hot(ctx, pend, z):
     pend.append(('hot ' + grid_line(Z), [(out, 'int')], case, what))
 
 
-def run_hotspots(ctx, pend, a, dtype, karr):
+def run_hotspots(ctx, pend, a, dtype, karr, chunks=None):
     focal, conv, funcs = _impl()
     rows = to_rows(a)
     case = dict(fn='hotspots', data=rows, dtype=dtype, kernel=np.asarray(karr).tolist(), kdtype=str(karr.dtype))
+    if chunks is not None:
+        case['dask_chunks'] = chunks_json(chunks)
+        ctx.count('hotspots/dask')
     what = 'hotspots(kernel %dx%d)' % karr.shape
     D, K = exact_grid(rows), kfr(karr)
     vals = [v for r in D for v in r if v is not None]
-    if not vals:
-        return
-    const = len(set(vals)) == 1
+    const = len(set(vals)) <= 1
     ctx.case(case, nontrivial=not const)
     ctx.count('hotspots/kernel=%dx%d%s' % (karr.shape[0], karr.shape[1], '/constant' if const else ''))
+    ctx.count('dtype/' + dtype)
+
+    def call(arr):
+        return [[int(v) for v in row] for row in _np(focal.hotspots(xr.DataArray(_backed(arr, chunks), dims=['y', 'x']), karr).data).tolist()]
+    if not vals or (const and chunks is not None):
+        # all-NaN raster (no mean, no deviation: every comparison with NaN is false) and, on Dask, a constant raster
+        # (no early ZeroDivisionError there: 0/0 = NaN): the only admissible answer is "no significance" everywhere
+        try:
+            with np.errstate(all='ignore'):
+                out = call(a)
+        except Exception as e:
+            ctx.violation('oracle', '%s raised %s: %s' % (what, type(e).__name__, str(e)[:200]), case)
+            return
+        if any(v != 0 for r in out for v in r):
+            ctx.violation('oracle', '%s: a raster without any deviation from its mean got significant cells %r' % (what, out), case)
+        return
     try:
-        out = [[int(v) for v in row] for row in focal.hotspots(xr.DataArray(a, dims=['y', 'x']), karr).data.tolist()]
+        out = call(a)
     except ZeroDivisionError:
         out = 'ZERODIV'
     except Exception as e:
@@ -777,8 +877,9 @@ def run_hotspots(ctx, pend, a, dtype, karr):
             return
         pend.append(('hotspots %s %s' % (grid_line(D), grid_line(K)), [('ZERODIV', 'raw')], case, what))
         return
-    exp = oracle_hotspots(D, K)
+    exp = oracle_hotspots(D, K, slack=1.0 if chunks is None else 3.0)
     modes = [['skip' if near else 'int' for _, near in row] for row in exp]
+    ctx.count('hotspots/cells-checked', sum(m == 'int' for r in modes for m in r))
     ctx.count('hotspots/cells-near-threshold-skipped', sum(m == 'skip' for r in modes for m in r))
     ctx.count('hotspots/cells-nonzero', sum(v != 0 for r in out for v in r))
     for y, row in enumerate(out):
@@ -792,7 +893,7 @@ def run_hotspots(ctx, pend, a, dtype, karr):
                 return
     # negating the raster negates the result (exactly: IEEE negation is exact)
     try:
-        neg = [[int(v) for v in row] for row in focal.hotspots(xr.DataArray(-a, dims=['y', 'x']), karr).data.tolist()]
+        neg = call(-a if not dtype.startswith('uint') else -(a.astype('int64')))
     except Exception as e:
         ctx.violation('oracle', '%s on the negated raster raised %s' % (what, type(e).__name__), case)
         return
@@ -868,9 +969,9 @@ def compare_model(ctx, pend):
                 break
 
 
-def gen_hot_raster(rng, dtype=None):
+def gen_hot_raster(rng, dtype=None, rows=None, cols=None):
     """mostly flat raster with a few strong positive / negative clusters (so that |z| crosses the thresholds)"""
-    rows, cols = rng.randint(3, 8), rng.randint(3, 8)
+    rows, cols = rows or rng.randint(3, 8), cols or rng.randint(3, 8)
     base = rng.choice([0, 0, 10, -5])
     a = np.full((rows, cols), float(base))
     for _ in range(rng.randint(1, 4)):
@@ -886,6 +987,10 @@ def gen_hot_raster(rng, dtype=None):
     if dtype.startswith('float') and rng.random() < 0.4:
         for _ in range(rng.randint(1, 3)):
             a[rng.randrange(rows), rng.randrange(cols)] = NAN
+    if dtype in ('int8', 'uint8'):
+        a = np.clip(np.round(a / 10.0), -100, 100)
+    if dtype.startswith('uint'):
+        a = np.abs(a)
     return a.astype(dtype), dtype
 
 
@@ -903,6 +1008,147 @@ def z_arrays():
         vals.append(0.5)
     z64 = np.array(vals, dtype='float64').reshape(-1, cols)
     return [z64, z64.astype('float32')]
+
+
+def small_kernel01(rng, shape=None):
+    k = None
+    while k is None or not np.any(k == 1):
+        k = np.array(gen_kernel01(rng, shape=shape or rng.choice([(1, 1), (1, 3), (3, 1), (3, 3), (3, 5), (5, 3)]),
+                                  style=rng.choice(['rand', 'full', 'sparse', 'corner'])), dtype='float64')
+    return k
+
+
+def weighted_kernel(rng, shape, i):
+    if i % 4 == 0:
+        return np.array([[rng.randint(-3, 3) for _ in range(shape[1])] for _ in range(shape[0])], dtype='int64')
+    return np.array([[rng.randint(-16, 16) / 8.0 for _ in range(shape[1])] for _ in range(shape[0])], dtype='float64')
+
+
+def gen_excludes(rng, a, passes, style):
+    """excludes lists: one or several entries, NaN first / in the middle / last / absent, duplicates"""
+    finite = [float(v) for v in np.asarray(a, dtype='float64').ravel().tolist() if not isnan(float(v))]
+    if passes >= 2:
+        # values that a mean can only reach when the whole window already has that value (see RULE)
+        pool = ([float(max(finite)), float(min(finite))] if finite else [7.0]) + [99999.0]
+    else:
+        pool = finite or [7.0]
+    v, w, x = rng.choice(pool), rng.choice(pool), rng.choice(pool)
+    return [[NAN], [NAN, v], [v], [v, w], [v, NAN, w], [v, NAN], [v, w, NAN], [NAN, v, w], [w, v, x, NAN], [NAN, NAN], [v, v],
+            [x, w, v]][style % 12]
+
+
+def run_dask_stream(ctx, pend):
+    """the same functions on Dask-backed rasters, every chunk layout: single chunk, one block tall x several wide, several
+    tall x one wide, 1-cell chunks, uneven chunks, regular blocks — compared with the same oracle and model as NumPy"""
+    rng = ctx.rng
+    q = ctx.quick()
+    shapes = [(1, 3), (3, 1), (1, 5), (5, 1), (3, 5), (5, 3), (3, 3), (1, 7), (5, 7), (7, 3)]
+    n = 0
+    for rep in range(1 if q else 12):
+        for li, layout in enumerate(LAYOUTS):
+            for fi in range(7):
+                n += 1
+                if q and (n + ctx.seed) % 2 and layout in ('cells', 'blocks'):
+                    continue                              # the two costliest layouts get half the cases in the quick tier
+                rows, cols = (rng.randint(5, 8), rng.randint(6, 9)) if layout != 'cells' else (rng.randint(4, 5), rng.randint(5, 6))
+                chunks = gen_chunks(rng, rows, cols, layout)
+                ctx.count('dask-layout/' + layout)
+                shape = shapes[(n + li) % len(shapes)]
+                if fi == 0:
+                    a, dtype = gen_raster(rng, rows=rows, cols=cols, kind='distinct', nanp=0.05, dtype='float64')
+                    run_apply(ctx, pend, a, dtype, np.array(gen_kernel01(rng, shape), dtype='float64'), ['sum', 'u_idxsum'][n % 2], chunks=chunks)
+                elif fi == 1:
+                    a, dtype = gen_raster(rng, rows=rows, cols=cols, kind='distinct', nanp=0.05, dtype='float64')
+                    run_stats(ctx, pend, a, dtype, np.array(gen_kernel01(rng, shape), dtype='float64'), ['sum', 'max', 'min'], chunks=chunks)
+                elif fi in (2, 3):
+                    a, dtype = gen_raster(rng, rows=rows, cols=cols, nanp=rng.choice([0.0, 0.0, 0.05]),
+                                          dtype=rng.choice(['float64', 'int32', 'float32']))
+                    run_conv(ctx, pend, a, dtype, weighted_kernel(rng, shape if fi == 2 else (3, 3), n), chunks=chunks)
+                elif fi == 4:
+                    a, dtype = gen_hot_raster(rng, dtype=rng.choice(['float64', 'int32']), rows=rows, cols=cols)
+                    run_hotspots(ctx, pend, a, dtype, small_kernel01(rng), chunks=chunks)
+                else:
+                    a, dtype = gen_raster(rng, rows=rows, cols=cols, dtype=rng.choice(['float64', 'int64']))
+                    passes = (n + fi) % 4 if not (q and layout == 'cells') else (n + fi) % 2
+                    run_mean(ctx, pend, a, dtype, passes, gen_excludes(rng, a, passes, n), chunks=chunks)
+    # a Dask-backed constant raster: no deviation anywhere, no ZeroDivisionError either
+    run_hotspots(ctx, pend, np.full((4, 6), 7.0), 'float64', np.ones((3, 3)), chunks=(4, 2))
+
+
+def run_audit_stream(ctx, pend):
+    """the corners of the property's quantifier that the random generators hit only occasionally"""
+    rng = ctx.rng
+    q = ctx.quick()
+    # raster shapes 1x1, 1xN, Nx1 and rasters smaller than the kernel, for every function
+    for (r, c) in [(1, 1), (1, 6), (6, 1), (2, 2), (1, 2), (2, 1), (2, 7), (3, 3)]:
+        for rep in range(1 if q else 5):
+            a, dtype = gen_raster(rng, rows=r, cols=c, dtype='float64')
+            run_apply(ctx, pend, a, dtype, np.array(gen_kernel01(rng, rng.choice([(1, 1), (3, 3), (5, 7), (7, 3)])), dtype='float64'),
+                      rng.choice(['sum', 'mean', 'u_idxsum']))
+            a, dtype = gen_raster(rng, rows=r, cols=c, dtype=rng.choice(['float64', 'int64']))
+            passes = rng.randint(0, 3)
+            run_mean(ctx, pend, a, dtype, passes, gen_excludes(rng, a, passes, rng.randrange(12)))
+            a, dtype = gen_raster(rng, rows=r, cols=c, nanp=0.0)
+            run_conv(ctx, pend, a, dtype, weighted_kernel(rng, rng.choice([(1, 1), (1, 3), (3, 1), (3, 3), (7, 3)]), r + c))
+            if r * c > 1:
+                a = np.array([[float(rng.choice([0, 0, 0, 50, -80, 3])) for _ in range(c)] for _ in range(r)])
+                a[0, 0] = 1.0
+                run_hotspots(ctx, pend, a, 'float64', small_kernel01(rng, rng.choice([(1, 1), (1, 3), (3, 1), (3, 3)])))
+    # the default reducer of apply, kernels whose entries are not 0/1 (only entries == 1 belong to the window), kernel dtypes
+    for i in range(6 if q else 60):
+        a, dtype = gen_raster(rng, dtype='float64')
+        k = np.array(gen_kernel01(rng, style='weird'), dtype='float64')
+        if i % 3 == 0:
+            k = np.array(gen_kernel01(rng, style='rand')).astype(['int8', 'uint8', 'bool', 'float32', 'int64'][(i // 3) % 5])
+        run_apply(ctx, pend, a, dtype, k, 'default' if i % 2 else 'sum')
+    # every integer width, signed and unsigned: apply (a JIT specialisation each: a rotating subset in the quick tier),
+    # convolution with negative / zero / fractional weights on integer rasters, mean, hotspots
+    rare = RARE_DTYPES if not q else [RARE_DTYPES[ctx.seed % len(RARE_DTYPES)]]
+    for dt in rare:
+        a, dtype = gen_raster(rng, dtype=dt)
+        run_apply(ctx, pend, a, dtype, np.array(gen_kernel01(rng), dtype='float64'), 'sum')
+    alld = INT_DTYPES + ['float32']
+    for j, dt in enumerate(alld if not q else [alld[(ctx.seed * 4 + j) % len(alld)] for j in range(4)]):
+        for rep in range(1 if q else 4):
+            shape = rng.choice([(3, 3), (1, 3), (3, 1), (3, 5)])
+            a, dtype = gen_raster(rng, rows=rng.randint(shape[0], 7), cols=rng.randint(shape[1], 7), dtype=dt, nanp=0.0)
+            k = np.array([[rng.choice([-1.5, -0.25, 0.0, 0.5, 0.75, 1.0, 2.5, -3.0]) for _ in range(shape[1])] for _ in range(shape[0])])
+            run_conv(ctx, pend, a, dtype, k)
+            a, dtype = gen_raster(rng, dtype=dt)
+            passes = rng.randint(0, 2)
+            run_mean(ctx, pend, a, dtype, passes, gen_excludes(rng, a, passes, j + rep))
+            a, dtype = gen_hot_raster(rng, dtype=dt)
+            run_hotspots(ctx, pend, a, dtype, small_kernel01(rng))
+    # passes > 3
+    for passes in ([4, 6] if q else [4, 5, 6, 8, 12]):
+        a, dtype = gen_raster(rng, rows=rng.randint(3, 6), cols=rng.randint(3, 6), dtype='float64')
+        run_mean(ctx, pend, a, dtype, passes, gen_excludes(rng, a, passes, passes))
+    # excludes: every order of {NaN, v, w}, several entries, NaN first / last, duplicates
+    for style in range(12):
+        for passes in ((1,) if q else (0, 1, 2, 3)):
+            a, dtype = gen_raster(rng, rows=rng.randint(2, 6), cols=rng.randint(2, 6), dtype='float64', kind='int', nanp=0.2)
+            run_mean(ctx, pend, a, dtype, passes, gen_excludes(rng, a, passes, style))
+    # stats_funcs: reversed canonical order, every single statistic, a duplicate, every rotation
+    a, dtype = gen_raster(rng, rows=4, cols=5, dtype='float64')
+    k = np.array(gen_kernel01(rng, (3, 3)), dtype='float64')
+    lists = [list(reversed(BUILTIN)), ['sum', 'sum'], ['var', 'mean', 'var']] + [BUILTIN[i:] + BUILTIN[:i] for i in (2, 5)]
+    lists += [[s_] for s_ in (BUILTIN if not q else BUILTIN[ctx.seed % 7:][:2])]
+    for names in lists:
+        run_stats(ctx, pend, a, dtype, k, names)
+    # hotspots: |mean| / std from 1e2 to 1e6 (float32 cancellation; the check is limited by the error bound of the float32
+    # evaluation, see oracle_hotspots; the float stream covers these rasters bit-for-bit), constant and all-NaN rasters
+    for j, off in enumerate([1e2, 1e3, 1e4, 1e5, 1e6] * (1 if q else 6)):
+        a, dtype = gen_hot_raster(rng, dtype='int32')
+        scale = rng.choice([1, 1, 10])
+        a = np.round(a.astype('float64') / (100.0 / scale)) + off * (-1 if j % 2 else 1)
+        dtype = 'float64' if j % 3 else 'int64'
+        ctx.count('hotspots/offset=%g' % off)
+        run_hotspots(ctx, pend, a.astype(dtype), dtype, small_kernel01(rng))
+    run_hotspots(ctx, pend, np.full((3, 4), 5, dtype='int32'), 'int32', np.ones((3, 3)))
+    run_hotspots(ctx, pend, np.full((3, 4), NAN), 'float64', np.ones((3, 3)))
+    an = np.full((4, 4), 2.0)
+    an[1, 2] = NAN
+    run_hotspots(ctx, pend, an, 'float64', np.ones((1, 3)))
 
 
 def run(ctx):
@@ -942,16 +1188,8 @@ def run(ctx):
             for bits in range(1 << n):
                 k = np.array([(bits >> b) & 1 for b in range(n)], dtype='float64').reshape(shape)
                 run_apply(ctx, pend, a, dtype, k, 'u_idxsum')
-    # ---- the same statistics on Dask-backed rasters split into several chunks (non-square kernels, seams) ------
-    for i in range(18 if q else 300):
-        shape = [(1, 3), (3, 1), (1, 5), (5, 1), (3, 5), (5, 3), (3, 3), (1, 7), (5, 7)][i % 9]
-        a, dtype = gen_raster(rng, rows=rng.randint(6, 8), cols=rng.randint(7, 9), kind='distinct', nanp=0.05, dtype='float64')
-        k = np.array(gen_kernel01(rng, shape), dtype='float64')
-        chunks = (rng.choice([2, 3, 4]), rng.choice([2, 3, 4]))
-        if i % 3 == 2:
-            run_stats(ctx, pend, a, dtype, k, ['sum', 'max', 'min'], chunks=chunks)
-        else:
-            run_apply(ctx, pend, a, dtype, k, ['sum', 'u_idxsum'][i % 2], chunks=chunks)
+    run_dask_stream(ctx, pend)
+    run_audit_stream(ctx, pend)
     # ---- focal_stats -------------------------------------------------------------------------------------
     for i in range(24 if q else 600):
         a, dtype = gen_raster(rng, dtype='float64' if i % 3 else None)
